@@ -426,6 +426,7 @@ func (e *relEngine) prove(d poly, c int64, from, b *ssa.BasicBlock) (bool, strin
 }
 
 func (e *relEngine) prove0(d poly, c int64, facts []linFact, from, b *ssa.BasicBlock) (bool, string) {
+	blk := b
 	if k, ok := d[""]; ok {
 		d = d.clone()
 		delete(d, "")
@@ -438,6 +439,23 @@ func (e *relEngine) prove0(d poly, c int64, facts []linFact, from, b *ssa.BasicB
 		r := polyAdd(d, f.d, -1)
 		if e.upper(r, from, b) <= c-f.c {
 			return true, "by the test at " + f.why
+		}
+	}
+	// a fact scaled by a positive integer (m x (F <= k) gives m x F <= m x k)
+	for _, f := range facts {
+		for mono, a := range f.d {
+			b, has := d[mono]
+			if !has || a == 0 || b%a != 0 {
+				continue
+			}
+			m := b / a
+			if m < 2 || m > 1<<20 {
+				continue
+			}
+			r := polyAdd(d, polyMul(constPoly(m), f.d), -1)
+			if e.upper(r, from, blk) <= c-m*f.c {
+				return true, "by the test at " + f.why + " (scaled)"
+			}
 		}
 	}
 	for i, f := range facts {
